@@ -108,19 +108,30 @@ func (n *node[T]) Methods() []string {
 // methodIndexes 是包级别的只读缓存，由所有的路由共享，所以返回的是副本，防止调用方修改后影响到其它路由。
 func (n *node[T]) methods() []string { return slices.Clone(methodIndexes[n.methodIndex].methods) }
 
-// 添加一个处理函数
-func (n *node[T]) addMethods(h T, pattern string, ms []types.Middleware[T], methods ...string) error {
-	for i, m := range methods { // 先验证所有的请求方法，保证出错时不会只添加了部分内容。
-		if m == http.MethodOptions || m == http.MethodHead || (n.root.hasTrace && m == http.MethodTrace) {
+// 验证 methods 是否都可以添加到 handlers 中
+//
+// handlers 为该路由项已有的处理函数，可以为空。
+func checkMethods[T any](hasTrace bool, handlers map[string]T, methods []string) error {
+	for i, m := range methods {
+		if m == http.MethodOptions || m == http.MethodHead || (hasTrace && m == http.MethodTrace) {
 			return fmt.Errorf("无法手动添加 OPTIONS/HEAD/TRACE 请求方法")
 		}
 		if _, found := methodIndexMap[m]; !found {
 			return fmt.Errorf("该请求方法 %s 不被支持", m)
 		}
 
-		if _, found := n.handlers[m]; found || slices.Contains(methods[:i], m) {
+		if _, found := handlers[m]; found || slices.Contains(methods[:i], m) {
 			return fmt.Errorf("该请求方法 %s 已经存在", m)
 		}
+	}
+	return nil
+}
+
+// 添加一个处理函数
+func (n *node[T]) addMethods(h T, pattern string, ms []types.Middleware[T], methods ...string) error {
+	// 先验证所有的请求方法，保证出错时不会只添加了部分内容。
+	if err := checkMethods(n.root.hasTrace, n.handlers, methods); err != nil {
+		return err
 	}
 
 	for _, m := range methods {
